@@ -226,3 +226,28 @@ def _(v):
         ok = ok and m.tolist() == exp and m.shape == (3, 2)
         n += 1
     v.prove("all_81_small_cases", ok and n == 81)
+
+
+@harness("C03", "no_hidden_state_between_evaluations", functions=[CH + ":Reaction.rate", CH + ":Reaction.rate_expr", RS + ":ReactionSystem.rates"], kind="shape-bounded", samples=25)
+def _(v):
+    """a second evaluation with other concentrations / after re-assigning the public attribute `param` must use the
+    current values (no memoised rate expression, no state carried between calls)"""
+    from chempy.reactionsystem import ReactionSystem
+    from chempy.chemistry import Substance
+    subst = ["A", "B", "C", "D", "E"]
+    c1 = {k: v.real("c1" + k, lo=0, hi=5) for k in subst}
+    c2 = {k: v.real("c2" + k, lo=0, hi=5) for k in subst}
+    k1, k2 = v.real("k_first", lo=0, hi=9), v.real("k_second", lo=0, hi=9)
+    rxn, d = build_reaction(v, "r", shapes()["catalyst"], k1)
+    r1 = v.call(rxn.rate, c1, substance_keys=subst)
+    first = {k: r1[k] for k in subst}
+    rxn.param = k2
+    r2 = v.call(rxn.rate, c2, substance_keys=subst)
+    v.prove("second_call_uses_current_param_and_concentrations", SP.conj([v.eq(r2[k], spec_net(d, k) * k2 * spec_cp(d, c2)) for k in subst]))
+    v.prove("first_result_not_modified", SP.conj([v.eq(r1[k], first[k]) for k in subst] + [v.eq(first[k], spec_net(d, k) * k1 * spec_cp(d, c1)) for k in subst]))
+    rsys = ReactionSystem([rxn], [Substance(k) for k in subst], checks=())
+    s1 = v.call(rsys.rates, c1)
+    rxn.param = k1
+    s2 = v.call(rsys.rates, c2)
+    v.prove("system_second_call", SP.conj([v.eq(s2[k], spec_net(d, k) * k1 * spec_cp(d, c2)) for k in subst]))
+    v.prove("system_first_call", SP.conj([v.eq(s1[k], spec_net(d, k) * k2 * spec_cp(d, c1)) for k in subst]))
